@@ -242,7 +242,7 @@ pub fn run(p: &Params, rep: &mut Report) {
                     let a = crate::c05::strip_orphans(&after);
                     if let Some((path, x, y)) = first_diff(&b, &a, "") {
                         let pc = path_class(&path);
-                        let reference = pc.starts_with("/annotations/*/data/") || pc.starts_with("/annotations/*/target/") || pc.starts_with("/annotations/*/text") || pc.starts_with("/lookups/");
+                        let reference = pc.starts_with("/annotations/*/data/") || pc.starts_with("/annotations/*/target/") || pc.starts_with("/annotations/*/text") || pc.starts_with("/annotations/*/resources") || pc.starts_with("/lookups/");
                         if reference {
                             rep.violation(
                                 "C15/explained:temporary-id-reference-dangles-after-gaps",
